@@ -268,8 +268,9 @@ def config_suite(seed, tier, out, drv):
         # lower ones; an empty header list / empty string wins like any other value
         for user, sfile in (({'input.exclude_filters': ['u1', 'u2']}, {'input.exclude_filters': []}), ({'input.exclude_filters': []}, {'input.exclude_filters': ['s1']}),
                             ({'input.exclude_filters': ['u1']}, {}), ({'input.exclude_filters': []}, {'input.exclude_filters': []}),
+                            ({'input.exclude_filters': ['gen.cmake', 'third_party', 'a//b']}, {'input.exclude_filters': ['gen.cmake/', './third_party', 'a/b', 'x/../gen.cmake']}),
                             ({'rst.prefix': 'U'}, {'rst.prefix': ''}), ({'input.kwargs_doc_trigger_string': 'U'}, {'input.kwargs_doc_trigger_string': ''})):
-            for cli_args, cli_flat in (([], {}), (['-e', 'c1'], {'input.exclude_filters': ['c1']})):
+            for cli_args, cli_flat in (([], {}), (['-e', 'c1'], {'input.exclude_filters': ['c1']}), (['-e', 'gen.cmake/', '-e', 'gen.cmake'], {'input.exclude_filters': ['gen.cmake/', 'gen.cmake']})):
                 compare(env, defaults, user, sfile, cli_args, cli_flat, out, drv, ('empty-value', json.dumps([user, sfile, cli_args], sort_keys=True)))
                 out.note_case(('empty-value', str(user), str(sfile), str(cli_args)), True); n += 1
         out.exhaustive = True
